@@ -388,7 +388,7 @@ func (C11Iso) Events(env world.Env, mm mc.Model) []string {
 	for i := range c11FeedVariants {
 		evs = append(evs, fmt.Sprintf("CreateFeedVariant:N:%d", i), fmt.Sprintf("UpdateFeedVariant:N:%d", i))
 	}
-	evs = append(evs, "DeleteNotifVariant:N:0", "DeleteNotifVariant:N:1", "DeleteFileVariant:N")
+	evs = append(evs, "DeleteNotifVariant:N:0", "DeleteNotifVariant:N:1", "DeleteNotifVariant:N:2", "DeleteFileVariant:N")
 	if mm.(c11Model).Blocks < 1 {
 		evs = append(evs, "NextBlock")
 	}
@@ -487,8 +487,13 @@ func (C11Iso) Apply(env world.Env, mm mc.Model, ev string) mc.Step {
 		msg = oracletypes.NewMsgUpdateFeed(who, c11FeedVariants[i], `{"price":"variant"}`)
 	case "DeleteNotifVariant":
 		from := w.A("X").Bech + " "
-		if p[2] == "1" {
+		switch p[2] {
+		case "1":
 			from = o + "/" + w.A("X").Bech // tries to reach into O's key space
+		case "2":
+			from = "../" + o + "/" + w.A("X").Bech // the same with a path step back out of the signer's own key space
+		case "3":
+			from = "./" + w.A("X").Bech + "/../../" + o + "/" + w.A("X").Bech
 		}
 		msg = notiftypes.NewMsgDeleteNotification(who, from, m.NotifT)
 	case "DeleteFileVariant":
@@ -534,6 +539,6 @@ func init() {
 		r.Rules = append(r.Rules, "(1) every message type registered for the custom modules (cross-checked against the Msg services of the registered file descriptors): every assignment of distinct valid addresses to its string fields (all permutations for <=5 fields, all rotations above): GetSigners = [creator], handler routable; (2) for every type three signed transactions through the real ante handler and DeliverTx: signed by another field's account (must be rejected, state unchanged), creator+extra signer (rejected), creator (must authenticate); (3) BFS over owner-only messages replayed by a non-owner N and by the owner O on a state where O owns a provider record, a feed, an inbox entry, a block list, a primary name and a storage file: N's messages leave every record of O byte-identical; (4) wasm binding PerformPostFile with creator = contract / another account")
 		r.Assumptions = append(r.Assumptions, "records 'belonging to O' = keys or values containing O's address in storage/notification/rns stores, and the feed O created")
 		c11Signers(r, tier)
-		r.AddExplore(C11Iso{}, opts(tier, 5, 7, 60, 900, 100, 1000))
+		r.AddExplore(C11Iso{}, opts(tier, 4, 7, 60, 900, 100, 1000))
 	}}
 }
